@@ -32,7 +32,8 @@ def sh(cmd, cwd=None, env=None, timeout=3600, inp=None):
     e = dict(os.environ)
     if env: e.update(env)
     p = subprocess.run(cmd, cwd=cwd, env=e, stdout=subprocess.PIPE, stderr=subprocess.STDOUT,
-                       timeout=timeout, input=inp, text=True, shell=isinstance(cmd, str))
+                       timeout=timeout, text=True, shell=isinstance(cmd, str),
+                       **({'input': inp} if inp is not None else {'stdin': subprocess.DEVNULL}))
     return p.returncode, p.stdout
 
 
@@ -76,6 +77,15 @@ def proof_layer(pid, cfg, thorough):
         rcc, outc = sh([sys.executable, f'{ROOT}/tools/translate_consts.py'])
         if rcc == 0: mods.append(cfg['consts_module'])
         else: consts_note = 'unavailable: ' + outc.strip()[-300:]
+    tie_mods = list(cfg.get('code_tie', []))
+    tie_note = None
+    if tie_mods:
+        # translation tie: the Rust functions' ASTs are regenerated from the working tree; the theorems
+        # `interpreting the regenerated AST = the hand-written model` are re-checked. If the translator
+        # itself cannot run (a file vanished / does not parse) the tie is unavailable for this run.
+        ok, tie_note = run_translator()
+        if ok: mods += tie_mods
+        else: tie_mods = []
     with Lock('lake'):
         rc, out = sh(['lake', 'build'] + mods + ['cbmodel'], cwd=LEAN, timeout=3000)
         if rc != 0:
@@ -88,7 +98,7 @@ def proof_layer(pid, cfg, thorough):
             for mod in mods:
                 rcm, outm = sh(['lake', 'build', mod], cwd=LEAN, timeout=3000)
                 if rcm != 0:
-                    problems.append({'kind': 'lake-build-failed', 'module': mod, 'detail': [l for l in outm.splitlines() if 'error' in l][:6]})
+                    problems.append({'kind': 'translation-tie-broken' if mod in tie_mods else 'lake-build-failed', 'module': mod, 'detail': [l for l in outm.splitlines() if 'error' in l][:6]})
                 else: good.append(mod)
             failed_mods = [m for m in mods if m not in good]
             mods = good
@@ -137,10 +147,29 @@ def proof_layer(pid, cfg, thorough):
         ns = lean_namespace(path)
         for n in stmts.statements(path): names.append(f'{ns}.{n}' if ns else n)
     if problems and discharged == len(names): discharged = max(0, len(names) - 1)
-    return dict(obligations=len(names), discharged=discharged, theorems=thms, problems=problems, checker_cmd=cmd, consts_tie=consts_note or 'regenerated and checked')
+    return dict(obligations=len(names), discharged=discharged, theorems=thms, problems=problems, checker_cmd=cmd, consts_tie=consts_note or 'regenerated and checked', code_tie=(tie_note if not tie_mods else 'regenerated from the working tree; ' + ', '.join(tie_mods)) if cfg.get('code_tie') else None)
 
 
 # ----------------------------------------------------------------------------- implementation
+
+TRANSLATOR = f'{ROOT}/translator'
+RS2LEAN = f'{BUILD}/target-tr/debug/rs2lean'
+
+def run_translator():
+    """regenerate lean/ClockBound/Generated/Code.lean (deep embedding of the Rust decision logic) from
+    /repo's working tree; returns (ok, note)"""
+    with Lock('cargo'):
+        rc, out = sh(['cargo', 'build', '--offline'], cwd=TRANSLATOR, env={'CARGO_NET_OFFLINE': 'true'}, timeout=3000)
+    if rc != 0: return False, 'translator does not build: ' + out[-300:]
+    tmp = f'{BUILD}/Code.lean.new'
+    rc, out = sh([RS2LEAN, os.environ.get('CB_REPO', '/repo'), tmp], timeout=600)
+    if rc != 0: return False, 'translator: ' + out.strip()[-300:]
+    dst = f'{LEAN}/ClockBound/Generated/Code.lean'
+    new = open(tmp).read()
+    if not os.path.exists(dst) or open(dst).read() != new:
+        open(dst, 'w').write(new)
+    return True, 'regenerated'
+
 
 def build_harness():
     with Lock('cargo'):
@@ -169,6 +198,11 @@ class Case:
         self.model = parts[0].strip()
         self.verdicts = dict(v.split(':', 1) for v in (parts[1].split() if len(parts) > 1 else []) if ':' in v)
         self.tags = set(t for t in (parts[2].strip().split(',') if len(parts) > 2 else []) if t)
+
+    @property
+    def hang(self):
+        """the real code did not return from this request (the harness watchdog answered)"""
+        return self.impl == 'hang'
 
     @property
     def bad(self):
@@ -266,6 +300,8 @@ def check(pid, tier, seed):
     t0 = time.time()
     cfg = props.PROPS[pid]
     thorough = tier == 'thorough'
+    # per-request limit of the harness watchdog (a request that never returns is answered `hang`)
+    os.environ.setdefault('CBH_WATCHDOG_S', '300' if thorough else '40')
     violations = []          # (replay path, suffix)
     known_lines = []
     if cfg.get('pre'):
@@ -294,13 +330,15 @@ def check(pid, tier, seed):
         if callable(g):
             lines += g(); continue
         rc, out = run_harness(g)
+        if rc == 3 and out.rstrip().endswith('=> hang'):
+            rc = 0   # the watchdog answered for a request that did not return: an answer like any other
         if rc != 0:
             print(out[-2000:]); print(f'harness failed: {g}')
             path = write_replay(pid, seed, 'harness', {'property': pid, 'what': 'harness run failed', 'args': g, 'log': out[-4000:]})
             print(f'VIOLATION property={pid} replay={path} no-failing-input-found'); return 1
         lines += out.splitlines()
     cases = evaluate(lines)
-    relevant = [c for c in cases if cfg.get('relevant', lambda c: True)(c)]
+    relevant = [c for c in cases if c.hang or cfg.get('relevant', lambda c: True)(c)]
     # 2. separate accounting: oracle failures on impl output, model disagreements
     known = [k for k in load_known()['findings'] if k['property'] == pid and k.get('status') == 'known']
     def is_known(c):
@@ -319,6 +357,10 @@ def check(pid, tier, seed):
         # associated property's verdict) the associated ones
         v = c.verdicts.get(oracle) or ('missing' if not present else ('FAILS' if 'FAILS' in present else ('holds' if 'holds' in present else 'na')))
         failing = (not c.bad) and (not present or 'FAILS' in present)
+        if c.hang:
+            # a call that never returns: no property of the code under test allows it
+            v = 'FAILS'; fails.append(c); disagreements.append(c); dist['hang'] += 1
+            continue
         if failing:
             k = is_known(c)
             if k: known_hits.setdefault(k['id'], (k, c))
@@ -368,10 +410,10 @@ def check(pid, tier, seed):
         def still_fails(req):
             cs = execute([req])
             return bool(cs) and cs[0].verdicts.get(oracle) == 'FAILS' and not cs[0].bad and not is_known(cs[0])
-        small = shrink(c.req, still_fails) if cfg.get('shrink', True) else c.req
-        sc = execute([small])[0]
+        small = shrink(c.req, still_fails) if cfg.get('shrink', True) and not c.hang else c.req
+        sc = c if c.hang else execute([small])[0]
         body = {
-            'property': pid, 'what': 'the implementation\'s answer violates the property oracle',
+            'property': pid, 'what': ('the real code did not return from this request (harness watchdog)' if c.hang else 'the implementation\'s answer violates the property oracle'),
             'request': sc.req, 'impl_answer': sc.impl, 'model_answer': sc.model, 'oracle': sc.verdicts,
             'original_request': c.req, 'failing_cases_seen': len(fails),
             'replay': f'./check {pid} --replay <this file>'}
@@ -399,7 +441,7 @@ def check(pid, tier, seed):
             'obligations': proof['obligations'], 'discharged': proof['discharged'],
             'checker_cmd': proof['checker_cmd'],
             'trusted_base': cfg.get('trusted_base', []) + props.COMMON_TRUSTED,
-            'theorems': proof['theorems'], 'translated_constants_tie': proof.get('consts_tie'),
+            'theorems': proof['theorems'], 'translated_constants_tie': proof.get('consts_tie'), 'translated_code_tie': proof.get('code_tie'),
             'evaluations': len(relevant), 'distinct_nontrivial': len(nontriv),
             'rule': cfg['rule'], 'samples': samples,
             'traces_validated_against_impl': len(relevant),
@@ -432,12 +474,17 @@ def replay(pid, path):
 
 
 def setup():
+    ok, note = run_translator()
+    if not ok: print('translator:', note); return 1
     rc, out = sh(['lake', 'build', 'ClockBound', 'cbmodel'], cwd=LEAN, timeout=6000)
     print(out[-1500:])
     if rc != 0: return rc
     rc, out = build_harness()
     print(out[-1500:])
-    return rc
+    if rc != 0: return rc
+    ok, note = run_translator()
+    print('translator:', note)
+    return 0 if ok else 1
 
 
 if __name__ == '__main__':
